@@ -249,4 +249,15 @@ def repro_inflate_intbounds():
     return bool(v.max() > hi or v.min() < lo), f'Inflate(x in [0,4], [0,0,1], 2): announced range [{lo},{hi}], evaluates to {v.tolist()}'
 
 
-C06_REPRODUCERS = {'C06-inflate-intbounds-duplicates': repro_inflate_intbounds}
+def repro_einsum_intbounds():
+    ev = _ev()
+    n = ev.InRange(ev.Argument('n', (), int), ev.constant(4))
+    a = ev.Range(n) + ev.constant(2)
+    e = ev.Einsum((a, a), ((0,), (0,)), ())
+    lo, hi = e._intbounds
+    vals = [int(ev.eval_once(e, arguments=dict(n=numpy.array(k)))) for k in range(4)]
+    bad = [v for v in vals if not lo <= v <= hi]
+    return bool(bad), f'Einsum(a,a) with a = Range(n)+2, n in [0,3]: announced range [{lo},{hi}], values {vals}'
+
+
+C06_REPRODUCERS = {'C06-einsum-intbounds-variable-length': repro_einsum_intbounds, 'C06-inflate-intbounds-duplicates': repro_inflate_intbounds}
